@@ -36,6 +36,10 @@ SHAPES = {
     "StopIteration()": lambda: StopIteration(),
     "ZeroDivisionError from 1/0": None,
     "Exception(())": lambda: Exception(()),
+    "IndexError('list index out of range')": lambda: IndexError("list index out of range"),
+    "KeyError('value')": lambda: KeyError("value"),
+    "AttributeError('x')": lambda: AttributeError("x"),
+    "TypeError('unsupported operand')": lambda: TypeError("unsupported operand"),
 }
 
 
